@@ -182,6 +182,11 @@ func (g *Geometry) UnmarshalJSON(data []byte) error {
 		}
 		g.Coordinates = mp
 	case "GeometryCollection":
+		for _, m := range jg.Geometries {
+			if m == nil {
+				return ErrInvalidGeometry
+			}
+		}
 		g.Geometries = jg.Geometries
 	default:
 		return ErrInvalidGeometry
@@ -245,6 +250,11 @@ func (g *Geometry) UnmarshalBSON(data []byte) error {
 		}
 		g.Coordinates = mp
 	case "GeometryCollection":
+		for _, m := range bg.Geometries {
+			if m == nil {
+				return ErrInvalidGeometry
+			}
+		}
 		g.Geometries = bg.Geometries
 	default:
 		return ErrInvalidGeometry
